@@ -60,7 +60,7 @@ func runC16(c *Ctx, r *Report) {
 			}
 			sc.Call = func(callee string, args []SV, ev *symEval, st *symState) (SV, bool) {
 				switch {
-				case strings.HasSuffix(callee, "Replacer).ReplaceAll"):
+				case strings.HasSuffix(callee, "Replacer).ReplaceAll"), strings.HasSuffix(callee, "Replacer).ReplaceKnown"):
 					if strings.HasPrefix(args[1].Desc, "raw") {
 						return str(strings.SplitN(args[1].Desc, ":", 2)[1]), true
 					}
@@ -249,7 +249,7 @@ func c16R5(c *Ctx, r *Report, rule string) {
 	}
 	sc.Call = func(callee string, args []SV, ev *symEval, st *symState) (SV, bool) {
 		switch {
-		case strings.HasSuffix(callee, "Replacer).ReplaceAll"):
+		case strings.HasSuffix(callee, "Replacer).ReplaceAll"), strings.HasSuffix(callee, "Replacer).ReplaceKnown"):
 			return SV{K: "str", Desc: "resolved(" + args[1].Desc + ")"}, true
 		case callee == "fmt.Errorf":
 			return SV{K: "ref", Known: true, Desc: "provisionError"}, true
@@ -420,7 +420,7 @@ func c16Store(c *Ctx, r *Report, rule string) {
 // account under its resolved name with the resolved password of the same entry, no account for a name that
 // resolves to nothing.
 func c16Resolve(c *Ctx, r *Report, rule string) {
-	r.rule(rule, "accounts after placeholder resolution (evaluation of Provision on a concrete credential table with placeholders in names and passwords): the authenticator's map holds exactly resolved name -> resolved password of the same entry (environment and file placeholders alike: the global replacer, not one made WithoutFile()), and no account for a name resolving to the empty string", 1)
+	r.rule(rule, "accounts after placeholder resolution (evaluation of Provision on a concrete credential table with placeholders in names and passwords): the authenticator's map holds exactly resolved name -> resolved password of the same entry (environment and file placeholders alike: the global replacer, not one made WithoutFile()), and no account for a name resolving to the empty string; braces that are no placeholder stay part of the name or password (the replacer modelled as caddy implements it)", 1)
 	fnName := "modules/l4socks.(*Socks5Handler).Provision"
 	fn := c.Fn(fnName)
 	if fn == nil {
@@ -433,17 +433,22 @@ func c16Resolve(c *Ctx, r *Report, rule string) {
 		{"{env.U}": "secret"},
 		{"carol": "{env.P}"},
 		{"dave": "{file./run/secrets/pw}"}, // a password kept in a file: resolved by the global replacer, empty for one made WithoutFile()
+		{"erin": "a{b}c", "fr{an}k": "x", "gina": "pre-{env.P}-post{x}"}, // braces that are no placeholder are part of the name or password
+	}
+	lookupWith := func(withFile bool) func(string) (string, bool) {
+		return func(key string) (string, bool) {
+			if strings.HasPrefix(key, "file.") && !withFile {
+				return "", false
+			}
+			x, ok := resolve["{"+key+"}"]
+			return x, ok
+		}
 	}
 	for ti, cfg := range tables {
 		want := map[string]string{}
 		for k, v := range cfg {
-			rk, rv := k, v
-			if x, ok := resolve[k]; ok {
-				rk = x
-			}
-			if x, ok := resolve[v]; ok {
-				rv = x
-			}
+			// the configured text with the placeholders the replacer knows resolved; whatever else stands in braces is text
+			rk, rv := caddyReplace(k, "", false, lookupWith(true)), caddyReplace(v, "", false, lookupWith(true))
 			if rk != "" {
 				want[rk] = rv
 			}
@@ -461,15 +466,10 @@ func c16Resolve(c *Ctx, r *Report, rule string) {
 		}
 		sc.Call = func(callee string, args []SV, ev *symEval, st *symState) (SV, bool) {
 			switch {
-			case strings.HasSuffix(callee, "Replacer).ReplaceAll"):
+			case strings.HasSuffix(callee, "Replacer).ReplaceAll"), strings.HasSuffix(callee, "Replacer).ReplaceKnown"):
 				if args[1].K == "str" && args[1].Known {
-					if args[0].Desc == "replacer without file" && strings.HasPrefix(args[1].S, "{file.") {
-						return symStr(""), true // unknown to that replacer: replaced by the empty string
-					}
-					if x, ok := resolve[args[1].S]; ok {
-						return symStr(x), true
-					}
-					return args[1], true
+					// the replacer as caddy implements it: ReplaceAll removes what stands in braces and is unknown to it
+					return symStr(caddyReplace(args[1].S, "", strings.HasSuffix(callee, ".ReplaceAll"), lookupWith(args[0].Desc != "replacer without file"))), true
 				}
 			case callee == "fmt.Errorf":
 				return SV{K: "ref", Known: true, Desc: "provisionError"}, true
